@@ -209,12 +209,18 @@ LoadStatus DepsLog::Load(const string& path, State* state, string* err) {
     }
 
     if (is_deps) {
-      if ((size % 4) != 0) {
+      // A deps record holds at least the output id and the two mtime words.
+      if ((size % 4) != 0 || size < 12) {
         read_failed = true;
         break;
       }
       int* deps_data = reinterpret_cast<int*>(buf);
       int out_id = deps_data[0];
+      // The path record of the output always precedes its deps record.
+      if (out_id < 0 || out_id >= (int)nodes_.size()) {
+        read_failed = true;
+        break;
+      }
       TimeStamp mtime;
       mtime = (TimeStamp)(((uint64_t)(unsigned int)deps_data[2] << 32) |
                           (uint64_t)(unsigned int)deps_data[1]);
@@ -223,7 +229,8 @@ LoadStatus DepsLog::Load(const string& path, State* state, string* err) {
 
       for (int i = 0; i < deps_count; ++i) {
         int node_id = deps_data[i];
-        if (node_id >= (int)nodes_.size() || !nodes_[node_id]) {
+        if (node_id < 0 || node_id >= (int)nodes_.size() ||
+            !nodes_[node_id]) {
           read_failed = true;
           break;
         }
@@ -241,7 +248,8 @@ LoadStatus DepsLog::Load(const string& path, State* state, string* err) {
         ++unique_dep_record_count;
     } else {
       int path_size = size - 4;
-      if (path_size <= 0) {
+      // Path records are padded to a multiple of 4 bytes.
+      if (path_size <= 0 || (size % 4) != 0) {
         read_failed = true;
         break;
       }
